@@ -154,6 +154,23 @@ def obligations(tier, seed):
         obs.append(Ob(id='C15.cmath2.%s' % nm, prop='C15', group='C15.cmath2i', prelude=PRE, wrappers=[w], inputs=[(cta, 'a'), (cta, 'b')], body=body, fp=True,
                       contract='%s(feet(a), inches(b)) with 32-bit integral reps, all values: std function called once on (double)a*12 and (double)b (exact in double: the operands '
                                'are converted in the floating type, so nothing wraps in the 32-bit rep)' % nm, functions_under_contract=('au::' + nm.split('.')[0],)))
+    # two-argument wrappers with DIFFERENT reps, same unit: the std function of the PROMOTED pair is called (std::hypot(float, double) is the double overload), each operand converted, not narrowed
+    for (fn, stubname) in (('hypot', 'hypot'), ('fmod', 'fmod'), ('remainder', 'remainder')):
+        for (r1, r2) in (('f32', 'f64'), ('f64', 'f32')) + ((('i32', 'f64'),) if fn == 'hypot' else ()):
+            c1, c2 = G.ctype(r1), G.ctype(r2)
+            w = Wrapper('w_%s_mr_%s_%s' % (fn, r1, r2), 'double', [(c1, 'a'), (c2, 'b')], 'return au::%s(au::make_quantity<au::Feet>(a), au::make_quantity<au::Feet>(b)).in(au::Feet{});' % fn)
+            stub = 'll2c_stub_' + stubname
+            body = '''
+  int before = %s_calls;
+  double r = %s(a, b);
+  CHECK(%s_calls == before + 1, "the-double-overload-of-the-std-function-is-called-exactly-once");
+  CHECK(VF_ISNAN((double)a) ? VF_ISNAN(%s_arg0) : vf_f64_bits(%s_arg0) == vf_f64_bits((double)a), "first-operand-converted-to-double-not-narrowed");
+  CHECK(VF_ISNAN((double)b) ? VF_ISNAN(%s_arg1) : vf_f64_bits(%s_arg1) == vf_f64_bits((double)b), "second-operand-converted-to-double-not-narrowed");
+  CHECK(vf_f64_bits(r) == vf_f64_bits(%s_ret), "result-is-its-value");
+''' % (stub, w.name, stub, stub, stub, stub, stub, stub)
+            obs.append(Ob(id='C15.cmath2.%s.mixedrep.%s_%s' % (fn, r1, r2), prop='C15', group='C15.cmath2mr', prelude=PRE, wrappers=[w], inputs=[(c1, 'a'), (c2, 'b')], body=body, fp=True,
+                          contract='au::%s(feet((%s)a), feet((%s)b)): the double overload of std::%s is called exactly once on ((double)a, (double)b) and its value is the result in feet '
+                                   '(neither operand is narrowed to the other\'s rep)' % (fn, c1, c2, fn), functions_under_contract=('au::' + fn,)))
     # isnan / copysign
     wn = Wrapper('w_isnan_f64', 'bool', [('double', 'a')], 'return au::isnan(au::make_quantity<au::Feet>(a));')
     wnp = Wrapper('w_isnan_pt_f32', 'bool', [('float', 'c')], 'return au::isnan(au::make_quantity_point<au::Feet>(c));')
